@@ -1,20 +1,29 @@
 # orchestrator configuration of the C19 check (loaded by tools/props.py)
 SPEC = dict(
     pkg="./harness/c19",
+    # two files ADDED to /repo's packages through the build overlay (nothing is replaced, /repo is not modified): a setter for
+    # the handshake package's own test seam `nowFn` and its re-export, so that every server can run on a clock of its own
+    overlay_add={"p2p/http/auth/internal/handshake/zz_verifsim_clock.go": "harness/c19/seam_handshake.go.txt",
+                 "p2p/http/auth/zz_verifsim_clock.go": "harness/c19/seam_auth.go.txt"},
     level="exploration",
     level_text=("seeded search over populations x adversary plans x clock offsets of the real ServerPeerIDAuth / ClientPeerIDAuth "
                 "connected by an in-memory RoundTripper inside a synctest bubble; every request that reaches a server and every "
                 "AuthenticatedDo result is judged by a reference model of the statement (tables of the challenges and tokens each "
-                "server actually issued, signed data rebuilt from the public spec, core/crypto verification). Sampling, not proof."),
+                "server actually issued, signed data rebuilt from the public spec, core/crypto verification). Fault: forward clock jumps "
+                "of ONE party (each server has a clock of its own, the clients share the bubble's) between steps and between the round "
+                "trips of one handshake; every lifetime is judged on the clock of the party that enforces it. Sampling, not proof."),
     level_note=("trusted: testing/synctest fake clock, core/crypto Sign/Verify and key (un)marshalling, net/http header handling, "
                 "the harness's reference model; crypto/rand is not pinned, so keys, nonces and signatures differ between replays "
                 "and only structural facts enter traces and signatures"),
-    technique="deterministic simulation: operation-level, tape-driven network adversary, reference-model oracles",
+    technique="deterministic simulation with fault injection (per-party clock jumps): operation-level, tape-driven network adversary, reference-model oracles",
     design_ref="DESIGN.md section 6 (C19)",
     quick_s=30, thorough_s=300,
     rule=("one run = one tape: 1-2 servers (own key of any type, own secret, token TTL 3 s-1 h, 1-2 hostnames, optionally a hostname "
           "served by both), 1-3 honest clients (key of any type, client token TTL 0/60 s/1 h) and an adversary with a key of her own; "
-          "after one honest bootstrap call, 1-9 drawn steps: honest call (plain, or first Authorization stripped to force the "
+          "after one honest bootstrap call (1 run in 4: cold start without it, so that first contacts can be the adversary's), "
+          "1-9 drawn steps: clock jump of one party (server i or the client side; lifetime-1s / +1s / x2 of the challenge lifetime, "
+          "a server's or a client's token TTL), honest call (1 in 5 with clock jumps of the target server or the client side drawn "
+          "before each later round trip; (plain, or first Authorization stripped to force the "
           "server-initiated flow; token reuse and token-expired re-handshake arise from the clock), adversary request (replay of a "
           "recorded token or signed Authorization with one of 29 parameter/header mutations, to the home or another server / "
           "hostname, now or at expiry -1s/+1s/-1ns/+1ns/0; adversary-signed variants over fresh, bound or recorded challenges; "
@@ -29,11 +38,15 @@ SPEC = dict(
             "accepted-just-before-token-expiry", "rejected-just-after-token-expiry",
             "accepted-just-before-challenge-expiry", "rejected-just-after-challenge-expiry",
             "token-other-hostname-accepted", "neutral-reencoding-accepted", "altered-bytes-still-valid",
-            "mallory-own-identity-accepted", "client-reports-mallory-who-signed", "client-refused-tampered-handshake"],
+            "mallory-own-identity-accepted", "client-reports-mallory-who-signed", "client-refused-tampered-handshake",
+            "cold-start", "first-contact-adversarial", "honest-call-server-clock-jumped-past-lifetime",
+            "honest-call-server-clock-jumped-within-lifetime-ok", "honest-call-excused-client-holds-entry-of-jumped-call",
+            "observed-client-locked-out-by-empty-stored-token"],
     real=["p2p/http/auth ServerPeerIDAuth.ServeHTTP (NoTLS + ValidHostnameFn, TokenTTL, Next)",
           "p2p/http/auth ClientPeerIDAuth.AuthenticatedDo (token store, client- and server-initiated handshake)",
           "p2p/http/auth/internal/handshake (through the two above)", "core/crypto keys of all four types", "net/http.Client"],
     stubs=["network: in-memory http.RoundTripper calling ServeHTTP on an httptest.ResponseRecorder (no sockets, no TLS)"],
-    assume=["synctest fake clock (Go 1.25.7)", "core/crypto signature verification is correct (it is the reference model's judge)",
+    assume=["synctest fake clock (Go 1.25.7)", "the two overlay-added files only assign the handshake package's own nowFn variable",
+            "all honest clients share one clock (auth/client.go reads package time directly); servers have one each", "core/crypto signature verification is correct (it is the reference model's judge)",
             "challenge lifetime is 5 min (DESIGN.md C19)"],
 )
